@@ -145,7 +145,7 @@ def _vm_reqs(tok):
     return _vm_list(ps, "str"), _vm_list(qs, "(list (str * str * option N))")
 
 
-_VM_PRELUDE = """From Oras Require Import Base.Prelude Generated.GC15 Model.Paging Model.PagingUrl.
+_VM_PRELUDE = """From Oras Require Import Base.Prelude Generated.GC15 Model.Paging Model.PagingUrl Model.PagingJson.
 Definition vm_dead : response := mkResp 599 false [] false 0 0 [] [] [] [].
 Definition vm_resolve (tbl : list (str * option url)) (_ : url) (t : str) : option url :=
   match find (fun e => str_eqb (fst e) t) tbl with Some e => snd e | None => None end.
@@ -247,6 +247,8 @@ def _vm_goal(case, out):
         return "set_query_params %s %s = %s" % (_vm_str(p[1]), kvs, _vm_str(o[0]))
     if k == "QE":
         return "(query_escape %s, query_unescape %s) = (%s, %s)" % (_vm_str(p[1]), _vm_str(p[1]), _vm_str(o[0]), "None" if o[1] == "!" else "Some %s" % _vm_str(o[1]))
+    if k == "J":
+        return "scan %s = %s" % (_vm_str(p[1]), "Some %s%%nat" % o[1] if o[0] == "OK" else "None")
     if k == "RR":
         call = "resolve_ref (mkS %s %s %s %s) %s" % tuple(_vm_str(x) for x in p[1:6])
         if o[0] == "OK":
@@ -276,7 +278,7 @@ def _c15_vm_sample(d, tier, coq, build, want=300):
             outs[i] = o
     # a spread over the case kinds, small cases preferred (the term is type-checked too)
     quota = {"C": 80, "W": 60, "S": 45, "L": 10, "F": 6, "FR": 6, "Z": 6, "O": 10, "X": 10, "P": 8,
-             "U": 40, "U0": 10, "QS": 15, "QE": 10, "RR": 40, "CS": 40}
+             "U": 40, "U0": 10, "QS": 15, "QE": 10, "RR": 40, "CS": 40, "J": 30}
     got = collections.Counter()
     stride = collections.Counter()
     total = collections.Counter()
@@ -334,8 +336,8 @@ def _c15_vm_sample(d, tier, coq, build, want=300):
 
 CONFIG = {
     "properties_file": "Properties/C15.v",
-    "proof_files": ["Base/Prelude.v", "Proofs/Paging.v", "Proofs/PagingUrl.v", "Proofs/PagingFacts.v"],
-    "model_files": ["Generated/GC15.v", "Model/Paging.v", "Model/PagingUrl.v"],
+    "proof_files": ["Base/Prelude.v", "Proofs/Paging.v", "Proofs/PagingUrl.v", "Proofs/PagingFacts.v", "Proofs/PagingJson.v"],
+    "model_files": ["Generated/GC15.v", "Model/Paging.v", "Model/PagingUrl.v", "Model/PagingJson.v"],
     "extract": "XC15.v",
     "ml_main": "c15_main.ml",
     "harness": "c15",
@@ -344,7 +346,7 @@ CONFIG = {
     "timeout_search": 1500,
     "assumptions": [
         "net/url is MODELLED on byte strings for a judged subset (Model/PagingUrl.v: Parse of a reference incl. scheme detection, first-segment-colon and bad-escape errors, host[:port] authorities, ResolveReference with Go 1.26 dot-segment removal, re-parse by http.NewRequest; fragments, user info, valid %-escapes or exotic bytes in a path, non-ASCII, opaque URLs are UNJUDGED) and compared with the real client on every followed link (raw path + raw query, byte for byte) and on random references; the association-list theorems (C15_exactly_once ...) still quantify over an abstract `render`/`resolve`, connected to the string level by C15_next_request_link_forms (forms </p?q>, <?q>, <http://h/p?q>, <//h/p?q>) and C15_next_request_dot_relative (<./seg?q>), C15_step_simulation and the all-histories refinement C15_string_loop_refines (hypotheses: the server answers indistinguishable requests alike; net/url-as-modelled and the abstract resolver agree on the links served)",
-        "encoding/json is abstract: a response is (well-formed?, document length, body length, decoded items) as declared by the generator for the shapes it produces (natural, padded inside, `null` / `{\"tags\":null}` for an empty page, leading white space, a second document behind, truncated/ill-typed bodies); C15_limit_bytes assumes the stream decoder is self-delimiting on the document (decoding stops at its end; no proper prefix is accepted) -- the harness checks it with documents of limit-1, limit, limit+1 bytes incl. the 4 MiB default",
+        "encoding/json: WHERE the first value of the stream ends is modelled (Model/PagingJson.v scan: brackets counted outside strings, leading white space) and compared with json.Decoder.InputOffset on generated valid object/array documents, all their prefixes, documents followed by more input, and on the bodies of the listings themselves (the declared document length = the decoder's = the scanner's); the self-delimiting property is a THEOREM of that scanner (C15_json_self_delimiting, C15_limit_bytes_scan: behind limitReader a document is decoded completely when it fits, not at all otherwise); the grammar inside the brackets and the mapping to Go values (which items a document decodes to, `null`, ill-typed fields) stay declared by the generator (well-formed?, decoded items)",
         "queries: the association-list model (url.Values.Set = replace) is refined by the string model of setQueryParams / QueryEscape / QueryUnescape (C15_set_query_params_verbatim, _read, C15_request_query_refines: for every key a registry looks up it reads what the association-list request says; lookup = first match of a lenient parse, as fakereg.ParseQueryLenient); bytes are < 256; the pre-fix lossy url.Values round trip is kept as mk_request_prefix (C15_lossy_query_refuted)",
         "the registry model's meaning of `last`: items after the entry named last; an unknown name is placed before the first greater item (= all greater items on a sorted registry, C15_last_on_sorted_registry); item names are non-empty and distinct",
         "a legal registry: page window of length in [1, min(cap, n)] chosen freely per request, of which it shows any subset (`vis`: entries it does not show give empty pages with a link); Link iff items remain after the window; its continuation is either `last=<last item of the window>` or an opaque cursor under another key (CToken key salt, key different from n/last/artifactType, value salt++name; such a link carries no `last`); the link may point to another path (`npath`) and may be answered after a redirect hop; it does not change artifactType and filters whenever it announces filtering (header or annotation, comma separated list)",
